@@ -138,7 +138,7 @@ def _ensure_server():
                 if cpid == 0:
                     os.close(cr)
                     try:
-                        signal.alarm(120)
+                        signal.alarm(700)
                         out = _baseline_compute(req)
                     except BaseException as exc:
                         out = ("harness_exc", f"{type(exc).__name__}: {exc}", traceback.format_exc()[-600:])
@@ -682,7 +682,7 @@ def execute(spec):
     world.attach_limit = 10 ** 9
     world.draw_limit = 10 ** 9
     old = signal.signal(signal.SIGALRM, _alarm)
-    signal.alarm(300)
+    signal.alarm(700)
     try:
         with world:
             # the library's global generator is an ordinary numpy generator shared through default arguments: seed its state
